@@ -1,11 +1,11 @@
 ----------------------------- MODULE Judge_Parse -----------------------------
 (* C13, code -> spec.  TRACE_FILE: [layout |-> <<case, ...>>, errors |-> <<case, ...>>]
 
-   layout case  [ver, edits: <<[op, class, endin, k]>>, orig_ok, edited_outcome: "parsed" | "error",
+   layout case  [ver, edits: <<[op, class, endin, open, k]>>, orig_ok, edited_outcome: "parsed" | "error",
                  same_as_original, n, file]
                 one real file (or many with the same observation: n) x one edit script emitted by
                 MC_Layout, parsed by the real parse_colang_file before and after.
-                class/endin describe the line each edit touched, as classified by the driver.
+                class/endin/open describe the line each edit touched, as classified by the driver.
    error case   [ver, kind, parsing_error, names_file, over_budget, exception_type, n, seed, mutation]
                 one mutated text loaded with RailsConfig.from_path.
 
@@ -24,7 +24,7 @@ JInit == k \in 1..(NL + NE) /\ LInit
 JSpec == JInit /\ [][UNCHANGED <<k, ls>>]_<<k, ls>>
 
 AllNeutral(c) == \A i \in 1..Len(c.edits) :
-                    NeutralAt(c.edits[i].op, c.edits[i].class, c.edits[i].endin, c.ver)
+                    NeutralAt(c.edits[i].op, c.edits[i], c.ver)
 Ambiguous(c) == c.ver = "2.x" /\ \E i \in 1..Len(c.edits) : c.edits[i].op = "twstab"
 LayoutJudged(c) == c.orig_ok /\ AllNeutral(c) /\ ~Ambiguous(c)
 LayoutOk(c) == c.edited_outcome = "parsed" /\ c.same_as_original
